@@ -5,6 +5,7 @@ mod ops_affine;
 mod ops_boolops;
 mod ops_c17;
 mod ops_centroid;
+mod ops_determinism;
 mod ops_distance;
 mod ops_hull;
 mod ops_kernel;
@@ -70,6 +71,7 @@ fn main() {
                 "c04" => ops_boolops::record(&pool, &mut w, seed, n),
                 "c10" => ops_tiling::record(&pool, &mut w, seed, n),
                 "c10rerun" => ops_tiling::rerun(&pool, &mut w),
+                "c20" => ops_determinism::record(&pool, &mut w, seed, n),
                 "c04rerun" => ops_boolops::rerun(&pool, &mut w),
                 k => { eprintln!("unknown record kind {k}"); std::process::exit(2); }
             }
